@@ -207,7 +207,8 @@ def shards(tier, seed):
     for n in LONG_LENS[tier]:
         out.append({"kind": "long", "n": n, "variant": variant, "embed": embed})
     for sub in ("flavours_banded", "flavours_seeded", "library", "mirror", "alias", "argument_types",
-                "palette_embeddings", "palette_variants", "palette_combos", "identity", "resize", "derived"):
+                "palette_embeddings", "palette_variants", "palette_combos", "identity", "resize", "derived",
+                "alphabet_fit"):
         out.append({"kind": "audit", "sub": sub, "variant": variant, "embed": embed})
     per = {"banded": 12, "gapped": 24, "ungapped": 75}
     for kind in ("banded", "gapped", "ungapped"):
@@ -1337,6 +1338,8 @@ def _run_audit(shard, ctx):
         audit_resize(ctx, shard)
     elif sub == "derived":
         audit_derived(ctx, shard)
+    elif sub == "alphabet_fit":
+        audit_alphabet_fit(ctx, shard)
 
 
 # ---------------------------------------------------------------------------
@@ -1487,6 +1490,74 @@ def audit_derived(ctx, shard):
 
 
 # ---------------------------------------------------------------------------
+# third dimension audit
+# ---------------------------------------------------------------------------
+def audit_alphabet_fit(ctx, shard):
+    """F: sequences whose alphabet has more symbols than the matrix alphabet.  Codes inside the matrix range:
+    unspecified (exception or exactly the result for the same codes); a code beyond the matrix: must raise.
+    H: align_local_ungapped(check_matrix=False) with fitting alphabets must give the checked result."""
+    import biotite.sequence as bseq
+    import biotite.sequence.align as balign
+
+    from mc.models import align_audit as AU
+    from mc.models import align_inputs as I
+
+    G = bseq.GeneralSequence
+    for k1, k2, fam in ((2, 2, "asym"), (2, 3, "rect")):
+        env = I.Env(k1, k2, fam, 0, 1)
+        big1 = bseq.Alphabet(list(range(env.size1 + 2)))
+        big2 = bseq.Alphabet(list(range(env.size2 + 2)))
+        for l1 in ((0,), (0, 1), (1, 0, 1)):
+            for l2 in ((1,), (1, 0), (0, 1, 1)):
+                c1, c2 = list(env.codes(1, l1)), list(env.codes(2, l2))
+                p1, p2 = env.seq(1, l1), env.seq(2, l2)
+                b1, b2 = c1[:-1] + [env.size1 + 1], c2[:-1] + [env.size2]
+                variants = [("seq1_alphabet_larger_codes_inside", G(big1, c1), p2, False),
+                            ("seq2_alphabet_larger_codes_inside", p1, G(big2, c2), False),
+                            ("both_alphabets_larger_codes_inside", G(big1, c1), G(big2, c2), False),
+                            ("seq1_code_beyond_matrix", G(big1, b1), p2, True),
+                            ("seq2_code_beyond_matrix", p1, G(big2, b2), True),
+                            ("both_codes_beyond_matrix", G(big1, b1), G(big2, b2), True)]
+                for gap in AUDIT_GAPS:
+                    calls = _three_calls(env, l1, l2, gap)
+                    for name, (f, args, kw) in calls.items():
+                        if f.__name__ == "align_local_ungapped":
+                            kw = {}
+                            ctx.ev(2, 1)
+                            a = AU.result_key(f(p1, p2, env.matrix, *args))
+                            b = AU.result_key(f(p1, p2, env.matrix, *args, check_matrix=False))
+                            if a != b:
+                                ctx.violation("align_local_ungapped|check_matrix_false_changes_result|fitting_alphabets",
+                                              "check_matrix=False changes the result for fitting alphabets",
+                                              {"kind": "alphabet_fit", **env.describe(), "s1": list(l1), "s2": list(l2)},
+                                              a, b)
+                        for label, s1, s2, must_raise in variants:
+                            case = {"kind": "alphabet_fit", **env.describe(), "label": label, "s1": list(l1),
+                                    "s2": list(l2), "gap": I.gap_json(gap), "call": name}
+                            if not ctx.journal(json.dumps(case)):
+                                continue
+                            ctx.ev(1, 1)
+                            try:
+                                got = AU.result_key(f(s1, s2, env.matrix, *args, **kw))
+                            except Exception as e:  # noqa: BLE001
+                                ctx.count("refused" if must_raise else "unspecified_raised")
+                                ctx.outcome(("alphabet_fit", name, label, type(e).__name__))
+                                continue
+                            if must_raise:
+                                ctx.violation("%s|alphabet_larger_than_matrix_not_refused|%s" % (f.__name__, label),
+                                              "a sequence holds a symbol the substitution matrix has no row / column "
+                                              "for, but the call returns", case, "an exception",
+                                              got if isinstance(got, int) else got[:1])
+                                continue
+                            ctx.count("unspecified_returned")
+                            want = AU.result_key(f(p1, p2, env.matrix, *args, **kw))
+                            if got != want:
+                                ctx.violation("%s|alphabet_larger_than_matrix_changes_result|%s" % (f.__name__, label),
+                                              "sequence alphabet not extended by the matrix alphabet is accepted but the "
+                                              "result differs from the one for the same codes", case, None, None)
+
+
+# ---------------------------------------------------------------------------
 # code widths, refusals
 # ---------------------------------------------------------------------------
 def run_width(shard, ctx):
@@ -1577,7 +1648,7 @@ def run_shard(shard, ctx):
      "refuse": run_refuse}[shard["kind"]](shard, ctx)
 
 
-DIFFERENTIAL_SUBS = {"mirror": "mirror", "alias": "alias", "identity": "identity", "resize": "resize",
+DIFFERENTIAL_SUBS = {"alphabet_fit": "alphabet_fit", "mirror": "mirror", "alias": "alias", "identity": "identity", "resize": "resize",
                      "derived": "derived", "argument_types": "argtypes"}
 
 
@@ -1604,6 +1675,8 @@ def crash_class(case):
             return "%s|seed_outside|%s" % (case.get("fn"), "negative" if min(case["seed"]) < 0 else "beyond_end")
         if case.get("kind") == "banded":
             return "align_banded|empty_sequence"
+        if case.get("kind") == "alphabet_fit":
+            return "%s|alphabet_larger_than_matrix|%s" % (case.get("call"), case.get("label"))
         if case.get("kind") == "long_gapped":
             return "align_local_gapped|long|%s" % case.get("direction")
     return "unclassified"
@@ -1620,9 +1693,9 @@ def replay(case, ctx):
         check_banded(ctx, env, tuple(case["s1"]), tuple(case["s2"]), tuple(case["band"]),
                      I.gap_from_json(case["gap"]), case["local"], 1000, either=True)
         return
-    if kind in ("mirror", "alias", "argtypes", "identity", "resize", "derived"):
+    if kind in ("mirror", "alias", "argtypes", "identity", "resize", "derived", "alphabet_fit"):
         sh = {"variant": case["variant"], "embed": case["embed"]}
-        {"mirror": audit_mirror, "alias": audit_alias, "argtypes": audit_argument_types, "identity": audit_identity,
+        {"alphabet_fit": audit_alphabet_fit, "mirror": audit_mirror, "alias": audit_alias, "argtypes": audit_argument_types, "identity": audit_identity,
          "resize": audit_resize, "derived": audit_derived}[kind](ctx, sh)
         return
     from mc.models import align_audit as AU
